@@ -43,7 +43,7 @@ for p, d, tag, t in sorted(finds, key=lambda x: (x[0] or "", x[2] or "")):
 rows = []
 for mp in sorted(glob.glob(os.path.join(V, "seeded", "*", "meta.json"))):
     m = json.load(open(mp))
-    rows.append((m.get("property"), os.path.basename(os.path.dirname(mp)), m.get("change", ""), m.get("needs", ""), m.get("caught_by", ""), m.get("note", "")))
+    rows.append((m.get("property"), os.path.basename(os.path.dirname(mp)), m.get("change", ""), m.get("needs", ""), m.get("caught_by", ""), (m.get("note", "") + ((" - SUPERSEDED: " + m["applies_to"]) if m.get("superseded") else "")).lstrip(" -")))
 out.append("\n## 6. Seeded property-breaking changes (written by independent agents) and which check catches them\n\n"
            "Each change compiles, keeps the existing test suite green and comes with a demonstration that fails with it and passes without;\n"
            "all of that was re-confirmed in a scratch worktree (`lib/muttest.sh`) before the change was kept under `seeded/`.\n\n"
